@@ -57,8 +57,19 @@ def keys(d):
     return set(d.keys()) if isinstance(d, dict) else set(d)
 
 
+_SAME_HOOK = [None]     # set by the twin: identity modulo the pre-state snapshot (copies of the same object are "the same")
+
+
 def same(a, b):
-    return a == b
+    if a is b:
+        return True
+    h = _SAME_HOOK[0]
+    if h is not None and h(a, b):
+        return True
+    try:
+        return bool(a == b)
+    except Exception:
+        return False
 
 
 def is_none(x):
